@@ -41,6 +41,14 @@ def perform(probe):
             else:
                 try:
                     s = sp.build()
+                    if probe.get("warm"):
+                        # the object has a past: a valid request on a grid twice as long, at the class's standard time
+                        try:
+                            big = sp.as_array(sp.request(max(5, sp.min_n)))
+                            s(big * 2.0, sp.t)
+                        except Exception:
+                            pass
+                        ev["par"] = "t (after an earlier valid call)"
                     sol = s(sp.as_array(sp.request(max(3, sp.min_n))), val)
                     fin = []
                     pos = set(n for n in sol.dtype.names if n.startswith(("position", "radius", "x_pos", "y_pos")))
@@ -66,6 +74,8 @@ def run(tier):
             if k not in seen:
                 seen.add(k); probes.append(j)
     probes.sort(key=lambda p: json.dumps(p, sort_keys=True))
+    # the domain of a request does not depend on what the object was asked before: every time probe also on an object with a past
+    probes += [dict(p, warm=True) for p in probes if p["r"]["kind"] == "time"]
     events = []
     for i, p in enumerate(probes):
         ev = perform(p); ev["tid"] = i + 1
